@@ -245,10 +245,12 @@ func main() {
 	w.maxBackEdges = 100000
 	w.maxInstr = 50000000
 	w.tier = *tier
-	w.timeoutMs = 20000
+	w.timeoutMs = 10000
+	w.fallbackMs = 60000
 	w.replayEvery = 8
 	if *tier == "thorough" {
-		w.timeoutMs = 120000
+		w.timeoutMs = 60000
+		w.fallbackMs = 300000
 		w.replayEvery = 4
 	}
 	loadT := time.Since(t0)
